@@ -74,6 +74,8 @@ _STMT = re.compile(rb'^\{"e":"stmt","pass":(\d+),"line":(\d+),"op":"((?:[^"\\]|\
                    rb'"wasif":\d,"wasmac":(\d),"rec":(\d),.*?"phd":(\d+),"svd":(\d+),"std":(\d+),"sed":(\d+),'
                    rb'"tagd":\d+,"len":(-?\d+),.*?"errs":(\d+),"ifs":\[(.*)\]\}')
 _BLOCK = ("REPT", "IRP", "IRPC", "WHILE")
+_KEEP = ("CPU", "INCLUDE", "RELAXED", "SUPMODE", "FPU", "PMMU", "FULLPMMU", "PADDING", "MAXMODE", "SRCMODE", "BIGENDIAN",
+         "EXTMODE", "LWORDMODE", "INTSYNTAX", "Z80SYNTAX", "PACKING", "DOTTEDSTRUCTS", "COMPMODE", "CUSTOM", "DSP")
 
 
 def _analyse_job(args):
@@ -184,12 +186,17 @@ class Src:
             return None
         return tok
 
-    def window(self, j, k, tr):
-        """header (the lines in front of j that lay down no code) + lines j..k + trailer.  j = 0: from the top;
-        k = 0: to the end of the source"""
+    def window(self, j, k, tr, minimal=False):
+        """header (the lines in front of j that lay down no code; minimal: only the CPU / INCLUDE / core mode statements
+        among them, so that no statement decoded by the generator stands in front of line j) + lines j..k + trailer.
+        j = 0: from the top; k = 0: to the end of the source"""
         out = []
         if j > 1:
             for ln in range(1, j):
+                if minimal and not (ln in self.rows and self.rows[ln][4] == 0 and self.rows[ln][2]
+                                    and self.rows[ln][0].upper() in (_KEEP if minimal == 1 else _KEEP[:1])
+                                    and self.rows[ln][5] == 0):
+                    continue
                 if ln in self.drop:
                     lab = self._label_only(ln)
                     if lab and ln in self.rows and self.rows[ln][4] == 0 and ln in self.kind:
@@ -218,12 +225,15 @@ def analyse(bld, tests):
 # ---------------------------------------------------------------------------------------------------------
 class Win:
     """one rendered window of a golden source"""
-    __slots__ = ("src", "j", "k", "tr", "text", "key")
+    __slots__ = ("src", "j", "k", "tr", "text", "key", "alt", "alt2")
 
-    def __init__(self, src, j, k, tr):
+    def __init__(self, src, j, k, tr, minimal=0):
         self.src, self.j, self.k, self.tr = src, j, k, tr
-        self.text = src.window(j, k, tr)
+        self.text = src.window(j, k, tr, minimal)
         self.key = (src.name, self.text)
+        # the same window with the minimal header: preferred if it assembles alone without errors
+        self.alt = Win(src, j, k, tr, 1) if (j > 1 and not minimal) else None
+        self.alt2 = Win(src, j, k, tr, 2) if (j > 1 and not minimal) else None      # CPU statements only
 
     def desc(self):
         s = self.src
@@ -444,6 +454,7 @@ def tracked_cpus():
 
 
 _CPU = re.compile(r"^\s*cpu\s+([^\s;]+)", re.I | re.M)
+_ASSUME = re.compile(r"^[ \t]+assume[ \t][^\n]*$", re.I | re.M)
 
 
 def is_tracked(src, cpus):
@@ -623,7 +634,15 @@ def run(rep, bld, tier):
                            {"w": "one", "f": "a", "j": b + 1, "k": b + 1, "tr": "end"}]}
             hists.append((name, o, [f.win(o["files"][0], tier), f.win(o["files"][1], tier)]))
     with Phase("genlatent: solo runs of the distinct windows of %d histories" % len(hists)):
-        solo, odd = run_solos(bld, [w for (_, _, ws) in hists for w in ws])
+        alts, _ = run_solos(bld, [a for (_, _, ws) in hists for w in ws if w.alt is not None for a in (w.alt, w.alt2)])
+        for (_, _, ws) in hists:
+            for i, w in enumerate(ws):
+                for a in ((w.alt2, w.alt) if w.alt is not None else ()):
+                    if alts.get(a.key, (2, None))[0] == 0 and alts[a.key][1] is not None:
+                        ws[i] = a
+                        break
+        solo, odd = run_solos(bld, [w for (_, _, ws) in hists for w in ws if w.key not in alts])
+        solo.update(alts)
     for (w, res) in odd[:5]:
         rep.drift("genlatent: window %s of %s ends the run alone (rc=%s signal=%s timeout=%s); left out"
                   % ((w.j, w.k), w.src.name, res.rc, res.sig, res.timeout))
@@ -666,13 +685,29 @@ def run(rep, bld, tier):
             names = chain_names(len(culprit))
             files = {"%s__%s" % (x.src.name, n): x.text for x, n in zip(culprit, names)}
             files["argv"] = " ".join(_job(culprit, names)["argv"])
+            # attribution: does the difference vanish when the ASSUME statements of the predecessors are taken out?
+            cul = "none"
+            if any(_ASSUME.search(x.text) for x in culprit[:-1]):
+                sub = []
+                for x in culprit[:-1]:
+                    y = Win(x.src, x.j, x.k, x.tr, 1)
+                    y.text = _ASSUME.sub("", x.text)
+                    sub.append(y)
+                m3 = drvrun.run_job(bld, _job(sub + [w], names))
+                if m3.rc in (0, 2) and _member(m3, w, names[-1]) == solo[w.key][1:3]:
+                    cul = "assume"
+            first = w.j if w.j else (w.src.emit[0] if w.src.emit else 0)
+            head_op = w.src.rows[first][0].upper() if first in w.src.rows else ""
             rep.violation("window of %s (lines %s..%s, first statement %r) assembles differently after %s in the same "
-                          "invocation than alone: %s"
+                          "invocation than alone: %s [explained by ASSUME statements of the predecessors: %s]"
                           % (w.src.name, w.j or 1, w.k or "end", w.desc()["first"],
-                             " + ".join("%s[..%r]" % (x.src.name, x.desc()["last"]) for x in culprit[:-1]), what[:700]),
+                             " + ".join("%s[..%r]" % (x.src.name, x.desc()["last"]) for x in culprit[:-1])[:600], what[:700],
+                             "yes" if cul == "assume" else "no"),
                           case={"history": [x.desc() for x in culprit], "shape": hists[hi][1]}, files=files,
-                          key={"kind": "genlatent", "family": w.src.name, "pred": culprit[-2].src.name if len(culprit) > 1 else "",
-                               "head": w.src.kind.get(w.j, ""), "tail": culprit[-2].src.kind.get(culprit[-2].k, "") if len(culprit) > 1 else ""})
+                          key={"kind": "genlatent", "family": w.src.name, "culprit": cul, "head_op": head_op,
+                               "differs": "code" if "code file" in what else "diagnostics" if "diagnostics" in what else "exit",
+                               "head": w.src.kind.get(w.j, ""),
+                               "tail": culprit[-2].src.kind.get(culprit[-2].k, "") if len(culprit) > 1 else ""})
     ones = sum(1 for h in hists if h[1]["type"][0] == "one")
     rep.traces(len(hists))
     rep.part("GenLatent(replay)", families=len(fams), tracked=sorted(n for n, f in fams.items() if f.tracked),
